@@ -130,6 +130,7 @@ package tcp
 //@             rtx && s.fr.active && s.dupAckCount == 0 && s.sndSsthresh >= 2 && s.sndCwnd == s.sndSsthresh + 3
 //@             && (s.sndSsthresh == old(s.outstanding) / 2 || s.sndSsthresh == 2))
 //@   ensures implies(rtx && !old(s.fr.active), old(isDupAck(s, seg)) && old(s.dupAckCount) >= 2)
+//@   ensures implies(!old(s.fr.active) && !rtx, s.sndCwnd == old(s.sndCwnd) && s.sndSsthresh == old(s.sndSsthresh))
 //@   ensures implies(old(s.fr.active) && s.fr.active && s.sndCwnd != old(s.sndCwnd), s.sndCwnd == old(s.sndCwnd) + 1 && s.sndCwnd <= old(s.fr.maxCwnd))
 //@   modifies s.dupAckCount, s.fr.active, s.fr.first, s.fr.last, s.fr.maxCwnd, s.sndCwnd, s.sndSsthresh
 
@@ -487,3 +488,22 @@ package tcp
 //@ func (*endpoint).HandleControlPacket props C07
 //@   requires e != nil
 //@   modifies everything()
+
+// ---------------------------------------------------------------------------
+// C01 (sender side): an acknowledgement that falls INSIDE the first unacknowledged segment.
+// The write list starts at sndUna (its first segment begins at the first unacknowledged
+// sequence number); when transmission resumes after the ACK has been processed that must
+// still be so: the acknowledged part is trimmed from the segment AND its sequence number
+// advances with it, otherwise the next retransmission carries shifted bytes.
+//@ func (*sender).handleRcvdSegment props C01 C05
+//@   impl congestionControl *renoState
+//@   panics_when true
+//@   loop 1 unroll 1
+//@   requires sndOK(s) && renoOf(s) && seg != nil && s.ep.waiterQueue != nil
+//@   requires 0 <= s.dupAckCount && s.dupAckCount <= 3 && 0 <= s.outstanding && s.outstanding <= 1 << 38 && s.rto >= 200000000
+//@   requires 1 <= s.sndCwnd && s.sndCwnd <= 1 << 38 && 0 <= s.sndCAAckCount && s.sndCAAckCount <= 1 << 38 && 2 <= s.sndSsthresh && s.sndSsthresh <= 1 << 38
+//@   requires !s.fr.active
+//@   requires s.writeList.head != nil && s.writeList.head.sequenceNumber == s.sndUna
+//@   requires seg.ackNumber - s.sndUna >= 1 && seg.ackNumber - s.sndUna <= s.sndNxt - s.sndUna && seqnum.Size(seg.ackNumber - s.sndUna) < s.writeList.head.logicalLen()
+//@   at_call sendData requires s.sndUna == old(seg.ackNumber) && s.writeList.head == old(s.writeList.head) && s.writeList.head.sequenceNumber == s.sndUna
+//@   modifies everything(), modset(NETGHOSTS)
